@@ -5,7 +5,8 @@ From Coq Require Import ZArith Lia Bool List.
 From NL.Model Require Import Compiler VM.
 From NL.Spec Require Import Verify Printer ScopeSpec.
 From NL.Proofs Require Import AstInduction SymbolsProofs.
-From NL.Proofs Require PoolProofs ControlProofs CompilerNames.
+From NL.Model Require Import Pipeline.
+From NL.Proofs Require PoolProofs ControlProofs CompilerNames VerifyProofs PrinterProofs.
 From NL.Proofs Require Import CompilerTotal CertifyBase CertifyProofs CertifyProofsB.
 Import ListNotations.
 Open Scope Z_scope.
@@ -301,7 +302,7 @@ Proof.
     intros y Hy. apply GL. do 4 (apply in_or_app; left). exact Hy.
   - (* JumpIfFalse *)
     destruct Hx as [<-|[]].
-    apply (ent_ok_bytes F K G st' (u16b OJumpIfFalse (code_len st4))); [exact BJ1|exact NB1|].
+    apply (ent_ok_bytes F K G st' (u16b OJumpIfFalse (code_len st4))); [exact BJ1|exact NB1|apply ibytes_3; reflexivity|].
     intros HB LF. eapply iok_jif; [exact HB|exact LF|pose proof (code_len_nonneg st4); lia|lia| |].
     + replace (code_len st1 + 3) with (code_len st2) by lia. replace (h + 1 - 1) with h by lia. exact Gt.
     + replace (code_len st4) with (code_len st5) by lia. replace (h + 1 - 1) with h by lia. exact Ge'.
@@ -310,7 +311,7 @@ Proof.
     intros y Hy. apply GL. apply in_or_app; left. apply in_or_app; left. apply in_or_app; right. exact Hy.
   - (* Jump *)
     destruct Hx as [<-|[]].
-    apply (ent_ok_bytes F K G st' (u16b OJump (code_len st6))); [exact BJ2|exact NB2|].
+    apply (ent_ok_bytes F K G st' (u16b OJump (code_len st6))); [exact BJ2|exact NB2|apply ibytes_3; reflexivity|].
     intros HB LF. eapply iok_jump; [exact HB|exact LF|pose proof (code_len_nonneg st6); lia|].
     unfold ex in HE. rewrite L7 in HE. exact HE.
   - (* alternative *)
@@ -573,6 +574,7 @@ Proof.
     apply (ent_ok_bytes F K G st' [byte_of_opcode ONull]).
     + intros k Hk. cbn [length] in Hk. assert (k = 0%nat) by lia. subst k. rewrite Z.add_0_r. exact BY.
     + eapply brk_not_at; [exact I'|exact BY|vm_compute; discriminate].
+    + apply ibytes_1; reflexivity.
     + intros HB LF. eapply iok_simple with (op := ONull); [reflexivity|exact HB|exact LF|exact H0|exact Gs].
   - (* condition *)
     pose proof (contig_range _ _ _ _ Hcc Hx) as Rx.
@@ -596,7 +598,7 @@ Proof.
         intros q Hq. apply (Clear J1 InJ1 q Hq (NQ q Hq)). cbn. lia.
       - rewrite Byt8; [exact (pt_hi _ _ _ _ P8)|lia|].
         intros q Hq. apply (Clear J1 InJ1 q Hq (NQ q Hq)). cbn. lia. }
-    apply (ent_ok_bytes F K G st' (u16b OJumpIfFalse (code_len st7))); [exact BJ| |].
+    apply (ent_ok_bytes F K G st' (u16b OJumpIfFalse (code_len st7))); [exact BJ| |apply ibytes_3; reflexivity|].
     + eapply brk_not_at with (b := byte_of_opcode OJumpIfFalse); [exact I'| |vm_compute; discriminate].
       pose proof (BJ 0%nat ltac:(cbn; lia)) as Z. rewrite Z.add_0_r in Z. exact Z.
     + intros HB LF. eapply iok_jif; [exact HB|exact LF|pose proof (code_len_nonneg st7); lia|lia| |].
@@ -614,6 +616,7 @@ Proof.
     apply (ent_ok_bytes F K G st' [byte_of_opcode OPop]).
     + intros k Hk. cbn [length] in Hk. assert (k = 0%nat) by lia. subst k. rewrite Z.add_0_r. exact BY.
     + eapply brk_not_at; [exact I'|exact BY|vm_compute; discriminate].
+    + apply ibytes_1; reflexivity.
     + intros HB LF. eapply iok_simple with (op := OPop); [reflexivity|exact HB|exact LF|lia|].
       replace (code_len st3a + 1) with (code_len st4) by lia. replace (h + 1 + -1) with h by lia. exact Gb.
   - (* body *)
@@ -628,7 +631,7 @@ Proof.
     assert (BJ : bytes_at st' (code_len st5) (u16b OJump start)).
     { intros k Hk. cbn [length u16b] in Hk. rewrite Byt7; [exact (app_of_bytes _ _ _ k A7 Hk)|lia|lia|lia|].
       intros q Hq. destruct (Qlo q Hq). lia. }
-    apply (ent_ok_bytes F K G st' (u16b OJump start)); [exact BJ| |].
+    apply (ent_ok_bytes F K G st' (u16b OJump start)); [exact BJ| |apply ibytes_3; reflexivity|].
     + rewrite Los. intros X. assert (Y : brk (c_loops st8) (code_len st5)) by (rewrite EL8; apply brk_snoc; left; exact X).
       rewrite Lo85 in Y. destruct (bi_at _ _ (fr_inv _ _ _ F5) _ Y) as (_ & Z & _). lia.
     + intros HB LF. eapply iok_jump; [exact HB|exact LF|unfold start; lia|exact Gs].
@@ -733,6 +736,7 @@ Proof.
               change (byte_at (set_loops st6 []) (code_len st4 - 1)) with (byte_at st6 (code_len st4 - 1)).
               rewrite <- Lr. exact (app_of_head _ _ _ _ (app_emit_opcode OReturnValue (remove_last_instruction st5))).
            ++ cbn [set_loops c_loops]. apply brk_nil.
+           ++ apply ibytes_1; reflexivity.
            ++ intros HB LF. apply iok_return_value; [exact HB|exact LF|lia].
     + destruct (last_instruction_is OReturnValue st5) eqn:ER.
       * (* ends in antwoord: nothing added *)
@@ -916,7 +920,7 @@ Proof.
     intros F K G KL GL HE LO x Hx. apply in_app_or in Hx. destruct Hx as [Hx|Hx]; [apply in_app_or in Hx; destruct Hx as [Hx|Hx]|].
     + (* the jump over the body *)
       destruct Hx as [<-|[]].
-      apply (ent_ok_bytes F K G st' (u16b OJump (code_len st6))); [|apply NB; lia|].
+      apply (ent_ok_bytes F K G st' (u16b OJump (code_len st6))); [|apply NB; lia|apply ibytes_3; reflexivity|].
       * rewrite <- L1. apply bytes_at_3.
         -- rewrite By7 by lia. rewrite (pa_bytes _ _ _ (pt_patched _ _ _ _ P7)) by lia.
            pose proof (B6' 0%nat ltac:(lia)) as X. rewrite Z.add_0_r in X. exact X.
@@ -973,3 +977,142 @@ Qed.
 
 Lemma all_Ps : forall b, Forall Ps b.
 Proof. intros b. apply Forall_forall. intros s _. exact (proj2 compile_typed s). Qed.
+
+(** * 6. The theorem *)
+
+Lemma load_consts_facts : forall ks h,
+  length (fst (load_consts ks h)) = length ks /\
+  forall ip n, In (VFun ip n) (fst (load_consts ks h)) -> In (KFun ip n) ks.
+Proof.
+  induction ks as [|k r IH]; intros h; cbn [load_consts].
+  - split; [reflexivity|]. intros ip n [].
+  - destruct k as [z|f|s|ip0 n0]; cbn [h_alloc];
+      match goal with |- context [load_consts r ?h1] => specialize (IH h1); destruct (load_consts r h1) as [vs h2] end;
+      cbn [fst] in *; destruct IH as [IH1 IH2]; (split; [cbn [length]; rewrite IH1; reflexivity|]);
+      intros ip n [X|X]; try discriminate X; try (right; apply IH2; exact X).
+    injection X as <- <-. left. reflexivity.
+Qed.
+
+Lemma seg_halt : forall st m LH h (E : cert -> Prop), code_inv st ->
+  seg st (emit_opcode OHalt st) m LH h E [(code_len st, 1, m, h)].
+Proof.
+  intros st m LH h E I.
+  apply (seg_emit st _ [byte_of_opcode OHalt]); [apply app_emit_opcode|apply ibytes_1; reflexivity|exact I|auto|].
+  intros F K G HB LF KL HE LO. apply iok_halt; assumption.
+Qed.
+
+Lemma fbyte_is_byte_at : forall st i, 0 <= i -> fbyte (c_code st) i = byte_at st i.
+Proof. intros st i Hi. unfold fbyte, byte_at. replace (i <? 0) with false by (symmetry; apply Z.ltb_ge; lia). reflexivity. Qed.
+
+Lemma succ_ok_exact : forall a C b x, contig a C b -> 0 <= a -> In x C ->
+  succ_ok (cert_of C) (e_m x) (e_pc x) (e_h x) = true.
+Proof.
+  intros a C b x Hc A0 Hx. unfold succ_ok. rewrite (cert_of_lookup _ _ _ _ Hc A0 Hx).
+  rewrite Bool.eqb_reflx. cbn [andb]. apply Z.leb_le. lia.
+Qed.
+
+(* the certificate of a compiled program: one entry per instruction *)
+Theorem compile_certifies_explicit : forall b bc, wf_tree b = true -> compile b = Ok bc ->
+  exists C, contig 0 C (zlength (b_code bc)) /\
+            (forall x, In x C -> instr_width (b_code bc) (e_pc x) = Some (e_w x)) /\
+            check (mkProgram (b_code bc) (fst (load_consts (b_constants bc) empty_heap))) (cert_of C) = true.
+Proof.
+  intros b bc Wb H. unfold compile, compile_ast in H.
+  destruct (compile_statements b compiler_new) as [st1| | |] eqn:E; cbn [snd] in H; try discriminate H.
+  injection H as <-. cbn [b_code b_constants].
+  assert (Wb' : forallb wfs b = true) by exact Wb.
+  pose proof (stmts_frame b compiler_new st1 Wb' code_inv_new wf_symtab_new E) as F1.
+  assert (P : pre compiler_new st1 false 0 0).
+  { split; [exact code_inv_new|exact wf_symtab_new|reflexivity|lia|lia|].
+    intros S. exfalso. destruct (sgrow_facts _ _ (mo_sym _ _ (fr_mono _ _ _ F1))) as (_ & X & _).
+    rewrite X in S. discriminate S. }
+  destruct (stmts_sspec b (all_Ps b) compiler_new st1 false 0 0 Wb' E P) as [C0 [S0 _ _]].
+  set (stf := emit_opcode OHalt st1).
+  pose proof (emit1_frame OHalt st1 (fr_inv _ _ _ F1) (fr_wf _ _ _ F1)) as F2. fold stf in F2.
+  assert (S : seg compiler_new stf false 0 0 noex (C0 ++ [(code_len st1, 1, false, 0)])).
+  { eapply seg_app; [exact S0|apply seg_halt; exact (fr_inv _ _ _ F1)|eapply frame_weaken; [|exact F2]; lia|reflexivity|].
+    intros X. pose proof (fr_len _ _ _ F2). lia. }
+  set (C := C0 ++ [(code_len st1, 1, false, 0)]) in *.
+  pose proof (sg_contig _ _ _ _ _ _ _ S) as Hc. change (code_len compiler_new) with 0 in Hc.
+  exists C. split; [exact Hc|].
+  set (F := c_code stf). set (ks := c_constants stf).
+  set (K := fst (load_consts ks empty_heap)). set (G := cert_of C).
+  destruct (load_consts_facts ks empty_heap) as [KL1 KL2]. fold K in KL1, KL2.
+  assert (GL : forall x, In x C -> gle G x).
+  { intros x Hx. exact (succ_ok_exact _ _ _ _ Hc ltac:(lia) Hx). }
+  assert (T : forall x, In x C -> ent_ok F K G stf false 0 x).
+  { apply (sg_typed _ _ _ _ _ _ _ S F K G); [unfold zlength; fold ks; lia|exact GL|exact I|].
+    apply loop_ok_nil. pose proof (loops_ext_length _ _ _ (sp_loops _ _ _ (fr_ps _ _ _ F1))) as X.
+    cbn [emit_opcode stf c_loops]. destruct (c_loops st1); [reflexivity|discriminate X]. }
+  assert (NL : c_loops stf = []).
+  { pose proof (loops_ext_length _ _ _ (sp_loops _ _ _ (fr_ps _ _ _ F1))) as X.
+    cbn [emit_opcode stf c_loops]. destruct (c_loops st1); [reflexivity|discriminate X]. }
+  assert (T' : forall x, In x C -> iok F K G (e_pc x) (e_m x) (e_h x) /\ instr_width F (e_pc x) = Some (e_w x)).
+  { intros x Hx. pose proof (contig_range _ _ _ _ Hc Hx) as Rx. apply (T x Hx).
+    - unfold agree. apply fbyte_is_byte_at. lia.
+    - intros _ i Hi. unfold agree. apply fbyte_is_byte_at. lia.
+    - intros B. exfalso. rewrite NL in B. exact (brk_nil _ B).
+    - fold (code_len stf). unfold F. fold (code_len stf). lia. }
+  split; [intros x Hx; exact (proj2 (T' x Hx))|].
+  unfold check. cbn [p_code p_consts]. apply andb_true_intro. split; [apply andb_true_intro; split|].
+  - (* every entry passes check_instr *)
+    apply forallb_forall. intros [k e] Hin.
+    destruct (cert_of_elements _ _ _ _ _ Hc ltac:(lia) Hin) as (x & Hx & _ & Ek & ->). rewrite Ek.
+    pose proof (proj1 (T' x Hx)) as X.
+    unfold iok, check_instr in X. unfold check_instr.
+    rewrite (VerifyProofs.instr_succs_ext _ (fbyte F) _ _ _ _ _ (VerifyProofs.fetch_map_correct (mkProgram F K))).
+    exact X.
+  - (* the entry point *)
+    destruct (contig_hd _ _ _ _ _ Hc ltac:(pose proof (fr_len _ _ _ F2); pose proof (code_len_nonneg st1); lia)
+                (sg_hd _ _ _ _ _ _ _ S)) as (w & C' & EC).
+    assert (X : lookup G 0 = Some (false, 0)).
+    { apply (cert_of_lookup 0 C _ (0, w, false, 0) Hc ltac:(lia)). rewrite EC. left. reflexivity. }
+    rewrite X. reflexivity.
+  - (* function constants *)
+    apply forallb_forall. intros v Hv. destruct v as [| | |ip n| | |]; try reflexivity.
+    cbn [const_val_ok]. destruct (sg_kfun _ _ _ _ _ _ _ S ip n (KL2 ip n Hv)) as [[]|(N0 & w & Hx)].
+    apply andb_true_intro. split; [apply Z.leb_le; exact N0|].
+    exact (succ_ok_exact _ _ _ _ Hc ltac:(lia) Hx).
+Qed.
+
+Theorem compile_certifies : forall b bc, wf_tree b = true -> compile b = Ok bc ->
+  exists c, check (mkProgram (b_code bc) (fst (load_consts (b_constants bc) empty_heap))) c = true.
+Proof.
+  intros b bc W H. destruct (compile_certifies_explicit b bc W H) as (C & _ & _ & X). exists (cert_of C). exact X.
+Qed.
+
+(* Non-vacuity: the hypotheses hold for the example program of CompilerTotal.v (nested loops with stop /
+   volgende, if / else-if / else, a function with two parameters, a float literal), so it has a
+   certificate; and the certificate built here (one entry per instruction, unreachable code included) is
+   accepted by the executable checker when computed for a small program with a function, a loop, a stop in
+   operand position and code after antwoord. *)
+Module CCExamples.
+  Import CTExamples.
+  Example ex_certified : exists b bc c, wf_tree b = true /\ compile b = Ok bc /\
+    Nat.ltb 100 (length (b_code bc)) = true /\
+    check (mkProgram (b_code bc) (fst (load_consts (b_constants bc) empty_heap))) c = true.
+  Proof.
+    destruct ex_prog_compiles as (b & bc & _ & W & _ & H & L & _).
+    destruct (compile_certifies b bc W H) as [c Hc]. exists b, bc, c. auto.
+  Qed.
+
+  (* unreachable instructions (after antwoord, after stop) are certified as well: Verify.infer would not
+     visit them, the certificate of the proof does *)
+  Example ex_dead_code_certified : forall bc,
+    front u0 orc_some (str_cps "functie f(a) { antwoord a; a + 1 } zolang ja { stel x = [1, als ja { stop; 2 }]; } f(1)") = Ok bc ->
+    exists c, check (mkProgram (b_code bc) (fst (load_consts (b_constants bc) empty_heap))) c = true.
+  Proof.
+    intros bc H. unfold front in H.
+    destruct (parse u0 (parse_float orc_some) _) as [ast| | |] eqn:Ep; cbn [bind] in H; try discriminate H.
+    unfold parse, parse_tokens in Ep.
+    exact (compile_certifies ast bc (PrinterProofs.wf_complete (parse_float orc_some) _ _ ast Ep) H).
+  Qed.
+  Example ex_dead_code_accepted :
+    match front u0 orc_some (str_cps "functie f(a) { antwoord a; a + 1 } zolang ja { stel x = [1, als ja { stop; 2 }]; } f(1)") with
+    | Ok _ => true | _ => false end = true.
+  Proof. vm_compute. reflexivity. Qed.
+End CCExamples.
+
+Print Assumptions compile_typed.
+Print Assumptions compile_certifies_explicit.
+Print Assumptions compile_certifies.
